@@ -1211,3 +1211,112 @@ Example early_purge :
   outputs ep_evs =
   [ OAns (Some [nv_g1]) true []; OUnit; OAns (Some []) true []; OUnit; OAns None true []; OUnit; ORefused ].
 Proof. vm_compute. reflexivity. Qed.
+
+(* ------------------------------------------------------------------------------------------ *)
+(* Single loop, trace form: loops started minus loops exited, per group, is the number of live
+   loop goroutines, hence 0 or 1 in every prefix of every log - however many callers race.      *)
+
+Definition starts_of (g : str) (x : event * output * world) : nat :=
+  match x with
+  | (LoopStart g', OBool true, _) => if str_eqb g g' then 1%nat else 0%nat
+  | (GoogleAsk _ _ _, OAns _ _ st, _) => count_str g st
+  | (CognitoAsk _ _ _, OAns _ _ st, _) => count_str g st
+  | _ => 0%nat
+  end.
+Definition exits_of (g : str) (x : event * output * world) : nat :=
+  match x with
+  | (LoopExit g', OUnit, _) => if str_eqb g g' then 1%nat else 0%nat
+  | _ => 0%nat
+  end.
+Definition count_starts g (h : hist) : nat := fold_right (fun x n => (starts_of g x + n)%nat) 0%nat h.
+Definition count_exits g (h : hist) : nat := fold_right (fun x n => (exits_of g x + n)%nat) 0%nat h.
+
+Lemma count_starts_app g h1 h2 : count_starts g (h1 ++ h2) = (count_starts g h1 + count_starts g h2)%nat.
+Proof. induction h1 as [|x h1 IH]; simpl; [reflexivity|]. rewrite IH. lia. Qed.
+Lemma count_exits_app g h1 h2 : count_exits g (h1 ++ h2) = (count_exits g h1 + count_exits g h2)%nat.
+Proof. induction h1 as [|x h1 IH]; simpl; [reflexivity|]. rewrite IH. lia. Qed.
+
+Lemma scan_loopthreads u gs : forall s s' m d st, scan u gs s = (s', m, d, st) ->
+  forall g, count_str g (fc_loopthreads s') = (count_str g st + count_str g (fc_loopthreads s))%nat.
+Proof.
+  induction gs as [|g0 gs IH]; intros s s' m d st H g; simpl in H.
+  - inversion H; subst. reflexivity.
+  - destruct (lookup g0 (fc_cache s)) as [ms|].
+    + destruct (scan u gs s) as [[[s2 m2] d2] st2] eqn:Es. inversion H; subst. eapply IH; exact Es.
+    + unfold loop_start in H. destruct (mem_str g0 (fc_loops s)) eqn:Em.
+      * destruct (scan u gs s) as [[[s2 m2] d2] st2] eqn:Es. inversion H; subst. eapply IH; exact Es.
+      * match type of H with context [scan u gs ?s1] => destruct (scan u gs s1) as [[[s2 m2] d2] st2] eqn:Es end.
+        inversion H; subst. rewrite (IH _ _ _ _ _ Es g). simpl. destruct (str_eqb g g0); lia.
+Qed.
+
+Lemma loop_balance_step w e w1 o g :
+  step w e = (w1, o) ->
+  (count_str g (fc_loopthreads (w_fc w1)) + exits_of g (e, o, w1) =
+   count_str g (fc_loopthreads (w_fc w)) + starts_of g (e, o, w1))%nat.
+Proof.
+  intros H. destruct e as [t g0|t g0 a|g0|g0| |g0|u gs a|prof gs a|u tu gs a|k|k|k].
+  - simpl in H. unfold update_begin in H.
+    destruct (busy t (fc_fillers (w_fc w))); [inversion H; subst; simpl; lia|].
+    destruct (mem_str g0 (fc_inflight (w_fc w))); inversion H; subst; simpl; lia.
+  - rewrite step_update_end in H. destruct (filling t g0 (fc_fillers (w_fc w))) eqn:Ef; inversion H; subst; simpl; [|lia].
+    unfold update_end. rewrite Ef. simpl. lia.
+  - simpl in H. unfold loop_start in H. destruct (mem_str g0 (fc_loops (w_fc w))); inversion H; subst; simpl; [lia|].
+    destruct (str_eqb g g0); lia.
+  - simpl in H. unfold loop_exit in H.
+    destruct (fc_stopped (w_fc w) && mem_str g0 (fc_loopthreads (w_fc w))) eqn:Ec; inversion H; subst; simpl; [|lia].
+    apply andb_true_iff in Ec as [_ Em]. apply mem_count_pos in Em.
+    destruct (str_eqb g g0) eqn:E.
+    + apply str_eqb_eq in E. subst g0. rewrite count_remove_one_same. lia.
+    + apply str_eqb_neq in E. rewrite count_remove_one_other by exact E. lia.
+  - simpl in H. unfold stop in H. destruct (fc_stopped (w_fc w)); inversion H; subst; simpl; lia.
+  - simpl in H. inversion H; subst. simpl. lia.
+  - simpl in H. destruct (is_nil gs); [inversion H; subst; simpl; lia|].
+    destruct (scan u gs (w_fc w)) as [[[s m] d] st] eqn:Es.
+    pose proof (scan_loopthreads _ _ _ _ _ _ _ Es g) as L.
+    destruct d; inversion H; subst; simpl; lia.
+  - simpl in H. destruct (is_nil gs); [inversion H; subst; simpl; lia|].
+    destruct prof as [u|]; [|inversion H; subst; simpl; lia].
+    destruct (is_nil u); [inversion H; subst; simpl; lia|].
+    destruct (scan u gs (w_fc w)) as [[[s m] d] st] eqn:Es.
+    pose proof (scan_loopthreads _ _ _ _ _ _ _ Es g) as L.
+    destruct d; inversion H; subst; simpl; lia.
+  - simpl in H. destruct (klookup (gc_key u gs) (w_lc w)); [inversion H; subst; simpl; lia|].
+    destruct a; inversion H; subst; simpl; lia.
+  - simpl in H. inversion H; subst. simpl. lia.
+  - simpl in H. inversion H; subst. simpl. lia.
+  - simpl in H. destruct (kmem k (w_timers w)); inversion H; subst; simpl; lia.
+Qed.
+
+Lemma loop_balance evs : forall w log g,
+  run w_init evs = (w, log) ->
+  count_starts g log = (count_exits g log + count_str g (fc_loopthreads (w_fc w)))%nat.
+Proof.
+  induction evs as [|e evs IH] using rev_ind; intros w log g H.
+  - simpl in H. inversion H; subst. reflexivity.
+  - rewrite run_app in H. destruct (run w_init evs) as [w1 l1] eqn:E1. simpl in H.
+    destruct (step w1 e) as [w2 o] eqn:Es. inversion H; subst; clear H.
+    rewrite count_starts_app, count_exits_app. unfold count_starts at 2, count_exits at 2. cbn [fold_right].
+    pose proof (IH _ _ g eq_refl) as B. pose proof (loop_balance_step _ _ _ _ g Es) as S. lia.
+Qed.
+
+(* in every prefix of every log: 0 <= loops started - loops exited <= 1, per group *)
+Lemma single_loop_trace evs w log pre post g :
+  run w_init evs = (w, log) -> log = pre ++ post ->
+  (count_exits g pre <= count_starts g pre <= count_exits g pre + 1)%nat.
+Proof.
+  intros H E.
+  assert (exists evs1 w0, run w_init evs1 = (w0, pre)) as (evs1 & w0 & H1).
+  { destruct post as [|[[e o] w1] post].
+    - rewrite app_nil_r in E. subst. eauto.
+    - destruct (run_split _ _ _ _ _ _ _ _ _ H E) as (evs1 & _ & w0 & _ & B & _). eauto. }
+  pose proof (loop_balance _ _ _ g H1) as B. destruct (single_loop _ _ _ g H1) as [A _]. lia.
+Qed.
+
+(* in particular, before any loop has exited (no Stop yet), at most one RefreshLoop call - direct or
+   from inside a membership question - ever answers "started" for a group *)
+Lemma one_start_before_exit evs w log g :
+  run w_init evs = (w, log) -> count_exits g log = 0%nat -> (count_starts g log <= 1)%nat.
+Proof.
+  intros H E. pose proof (single_loop_trace _ _ _ log [] g H) as T.
+  rewrite app_nil_r in T. specialize (T eq_refl). lia.
+Qed.
